@@ -58,8 +58,8 @@ type rig struct {
 	hook func(e *env, to int) (replace *bft.Message, drop bool)
 	// result of delivering a replaced message: receiver -> error text ("" = accepted)
 	replaced map[int]string
-	// alsoOriginal: the honest copy of a replaced message still arrives afterwards (gossip: both copies reach the receiver)
-	alsoOriginal bool
+	// order in which a receiver sees the relay's version and the honest copy (gossip: both can reach it)
+	order int
 }
 
 type replica struct {
@@ -146,7 +146,10 @@ func (p *replica) ProduceProposal(be *bft.ByzantineEvidence, vdf *crypto.VDF) (u
 	addr := p.r.keys[p.i].PublicKey().Address().Bytes()
 	hdr := &lib.BlockHeader{Height: p.r.o.height, NetworkId: rigNet, Time: rigTime, ProposerAddress: addr,
 		LastBlockHash: crypto.Hash([]byte("last")), StateRoot: crypto.Hash([]byte("state")), TransactionRoot: crypto.Hash([]byte("txs")),
-		ValidatorRoot: crypto.Hash([]byte("vals")), NextValidatorRoot: crypto.Hash([]byte("vals")), TotalVdfIterations: uint64(p.i)}
+		ValidatorRoot: crypto.Hash([]byte("vals")), NextValidatorRoot: crypto.Hash([]byte("vals")), TotalVdfIterations: uint64(p.i),
+		LastQuorumCertificate: &lib.QuorumCertificate{Header: &lib.View{NetworkId: rigNet, ChainId: rigChain, Height: p.r.o.height - 1, RootHeight: p.r.o.rootH - 1, Phase: lib.Phase_PRECOMMIT_VOTE},
+			BlockHash: crypto.Hash([]byte("last")), ResultsHash: crypto.Hash([]byte("last-results")), ProposerKey: p.r.keys[0].PublicKey().Bytes(),
+			Signature: &lib.AggregateSignature{Signature: bytes.Repeat([]byte{1}, 96), Bitmap: []byte{0x0f}}}}
 	if _, err := hdr.SetHash(); err != nil {
 		return 0, nil, nil, err
 	}
@@ -173,14 +176,15 @@ func (p *replica) ValidateProposal(rcBuildHeight uint64, qc *lib.QuorumCertifica
 		ev = evidence.DSE.Evidence
 	}
 	p.note("ValidateProposal(rcBuildHeight=%d block=%s results=%s evidence=%d:%s)", rcBuildHeight, hx(qc.Block), pm(qc.Results), len(ev), dseDigest(ev))
-	blk := new(lib.Block)
-	if err := lib.Unmarshal(qc.Block, blk); err != nil {
+	// the stateless first step of controller.ValidateProposal, verbatim: decode (unknown fields rejected), Block.Check (the header
+	// hash field must be the hash of the header), height, certificate block hash == header hash, results present
+	blk, err := qc.CheckProposalBasic(p.r.o.height, rigNet, rigChain)
+	if err != nil {
+		p.note("ValidateProposal rejected: %s", strings.ReplaceAll(err.Error(), "\n", " "))
 		return nil, err
 	}
-	if blk.BlockHeader == nil {
-		return nil, lib.ErrNilBlockHeader()
-	}
 	if err := p.b.ValidateByzantineEvidence(qc.Results.SlashRecipients, evidence); err != nil {
+		p.note("ValidateProposal rejected: %s", strings.ReplaceAll(err.Error(), "\n", " "))
 		return nil, err
 	}
 	return &lib.BlockResult{BlockHeader: blk.BlockHeader}, nil
@@ -369,6 +373,12 @@ func (r *rig) stepAll() {
 	r.deliverAll()
 }
 
+const (
+	orderReplace     = 0 // the receiver sees the relay's version only
+	orderMutantFirst = 1 // relay's version, then the honest copy
+	orderHonestFirst = 2 // honest copy, then the relay's version
+)
+
 // someoneStillInRound reports whether a replica that has not committed is still working through the phases of the round.
 func (r *rig) someoneStillInRound() bool {
 	for _, q := range r.R {
@@ -391,7 +401,13 @@ func (r *rig) deliverAll() {
 					continue
 				}
 				if rep != nil {
-					// the relay's version arrives (first); handlers mutate messages, so they get a wire clone
+					if r.order == orderHonestFirst {
+						// the honest copy was already delivered when the relay's version arrives
+						if err := r.R[to].b.HandleMessage(cloneMsg(e.msg)); err != nil {
+							r.R[to].note("Reject(%s from %d: %s)", e.kind, e.from, err.Error())
+						}
+					}
+					// handlers mutate messages, so they get a wire clone
 					var cp *bft.Message
 					if bz, err := lib.Marshal(rep); err == nil {
 						cp = new(bft.Message)
@@ -407,7 +423,7 @@ func (r *rig) deliverAll() {
 							r.replaced[to] = ""
 						}
 					}
-					deliverOriginal = r.alsoOriginal
+					deliverOriginal = r.order == orderMutantFirst
 				}
 			}
 			if deliverOriginal {
